@@ -86,8 +86,10 @@ def convert(src):
         header = s[hstart:m.start()]
         lines = header.split('\n')
         keep_from = 0
+        cont = False
         for k, ln in enumerate(lines):
-            if ln.strip().startswith('#'): keep_from = k + 1
+            if ln.strip().startswith('#') or cont: keep_from = k + 1
+            cont = (ln.strip().startswith('#') or cont) and ln.rstrip().endswith('\\')
         pre_hdr = '\n'.join(lines[:keep_from])
         header = '\n'.join(lines[keep_from:])
         out.append(s[pos:hstart] + pre_hdr + ('\n' if keep_from else ''))
@@ -98,7 +100,11 @@ def convert(src):
         clauses = []
         while True:
             mm = CL.match(s, i)
-            if not mm: break
+            if not mm:
+                fm = re.match(r'[A-Z][A-Z0-9_]*_FRAME\b\s*', s[i:])   # macro that expands to assigns/frees clauses only
+                if fm:
+                    i += fm.end(); continue
+                break
             e = match_paren(s, mm.end() - 1)
             clauses.append((mm.group(1), s[mm.end():e - 1]))
             i = e
